@@ -116,6 +116,8 @@ def nontrivial(case):
 def shrinkable(case):
     if case.startswith("urlcred") or case.startswith("ctor"):
         return []
+    if case.startswith("tls"):
+        return [6, 7]
     return [8, 9]
 
 
